@@ -134,6 +134,8 @@ class Case(object):
         self.ctx = ctx
         self.config = config
         self.vocab = vocab
+        from .codec import set_encoding
+        set_encoding(getattr(config, "encoding", "utf-8"))
         self.idx = Index(config)
         self.led = Ledger(config)
         self.ops = []
